@@ -1565,7 +1565,16 @@ func (p *printer) stmt(stmt ast.Stmt, nextIsRBrace bool) {
 	case *ast.CaseClause:
 		if s.List != nil {
 			p.print(token.CASE, blank)
-			p.exprList(s.Pos(), s.List, 1, 0, s.Colon, false)
+			if n := len(s.List); endsWithErrWrap(s.List[n-1]) {
+				// the ':' of the clause would be read as the default of `e?:d`
+				if n > 1 {
+					p.exprList(s.Pos(), s.List[:n-1], 1, 0, s.List[n-1].Pos(), false)
+					p.print(token.COMMA, blank)
+				}
+				p.exprBeforeColon(s.List[n-1], 1)
+			} else {
+				p.exprList(s.Pos(), s.List, 1, 0, s.Colon, false)
+			}
 		} else {
 			p.print(token.DEFAULT)
 		}
